@@ -42,7 +42,8 @@ def build_harness(wd):
     shutil.copy(os.path.join(REPO, 'go.sum'), os.path.join(src, 'go.sum'))
     if REPO != '/repo':
         gm = os.path.join(src, 'go.mod')
-        open(gm, 'w').write(open(gm).read().replace('=> /repo', '=> ' + REPO))
+        txt = open(gm).read().replace('=> /repo', '=> ' + REPO)
+        open(gm, 'w').write(txt)
     out = os.path.join(wd, 'vh')
     os.makedirs(GOENV['GOCACHE'], exist_ok=True)
     r = sh([GO, 'build', '-tags', 'verif', '-o', out, '.'], cwd=src, env=GOENV)
